@@ -1,11 +1,11 @@
 SPECIFICATION Spec
 CONSTANTS
   Names = {"n1", "n2"}
-  MaxOps = 5
+  MaxOps = 4
   MaxOrgs = 2
   MaxUsers = 2
   MaxBkts = 2
-  SysTargets = {"_tasks"}
-  WithRemove = FALSE
+  SysTargets = {"_tasks", "_monitoring"}
+  WithRemove = TRUE
 INVARIANTS TypeOK
 CHECK_DEADLOCK FALSE
